@@ -168,7 +168,7 @@ def bond_gauge(rng, mp, cplx=None, bond=None):
 
 # ------------------------------------------------------------------------------------------ gauge history
 GAUGE_OPS = ["ensure_left", "ensure_right", "canonicalise_twice", "lossless_compress", "move_qnidx", "to_complex",
-             "phase_rotation", "coeff", "none"]
+             "phase_rotation", "coeff", "none", "bond_gauge"]
 
 
 def apply_gauge(rng, mp, op=None, trace=None):
@@ -205,6 +205,10 @@ def apply_gauge(rng, mp, op=None, trace=None):
             mp.to_complex(inplace=True)
             mp[i] = mp[i].array * np.exp(1j * phi)
             mp[j] = mp[j].array * np.exp(-1j * phi)
+    elif op == "bond_gauge":
+        # G G^-1 on an inner bond (block diagonal in the bond labels): non-canonical, real data stay real
+        j = bond_gauge(rng, mp, cplx=bool(mp.is_complex and rng.random() < 0.7))
+        op = f"bond_gauge({j})"
     elif op == "coeff":
         if hasattr(mp, "coeff") and not mp.is_mpo:
             c = [2.0, -0.5, np.exp(1j * 0.7), 1.0][int(rng.integers(0, 4))]
